@@ -71,7 +71,12 @@ func grpcPair(r *rng) (client, server net.Conn, err error) {
 // kitPair returns the two plain mailbox connections (connKit over GBN over an in-memory hashmail relay,
 // no Noise layer) of a client and a server.
 func kitPair(r *rng) (client, server net.Conn, cleanup func(), err error) {
-	relay := newFakeRelay()
+	client, server, cleanup, _, err = kitPairRelay(r)
+	return
+}
+
+func kitPairRelay(r *rng) (client, server net.Conn, cleanup func(), relay *fakeRelay, err error) {
+	relay = newFakeRelay()
 	ctx, cancel := context.WithCancel(context.Background())
 	entropy := r.bytes(14)
 	cdC := mailbox.NewConnData(keyECDH(privFromRng(r)), nil, entropy, nil, nil, nil)
@@ -80,7 +85,7 @@ func kitPair(r *rng) (client, server net.Conn, cleanup func(), err error) {
 	cli, err2 := mailbox.VerifNewClient(ctx, "relay", cdC, relay)
 	if err1 != nil || err2 != nil {
 		cancel()
-		return nil, nil, nil, fmt.Errorf("%v %v", err1, err2)
+		return nil, nil, nil, relay, fmt.Errorf("%v %v", err1, err2)
 	}
 	errc := make(chan error, 1)
 	go func() {
@@ -116,7 +121,7 @@ func kitPair(r *rng) (client, server net.Conn, cleanup func(), err error) {
 		_ = srv.Close()
 		cancel()
 	}
-	return client, server, cleanup, err
+	return client, server, cleanup, relay, err
 }
 
 // tcpPair returns two NoiseConn (the TCP variant) over memory.
